@@ -516,12 +516,19 @@ func (r *Reader) TextWithOptions(opts ExtractOptions) (string, error) {
 				if cell.IsMerged && !cell.IsMergeRoot {
 					continue
 				}
-				result.WriteString(cell.Value)
+				result.WriteString(flattenField(cell.Value, delimiter))
 			}
 		}
 	}
 
 	return result.String(), nil
+}
+
+// flattenField keeps a cell value inside its field of the delimited text:
+// line breaks and the delimiter itself are replaced by a space.
+func flattenField(s, delimiter string) string {
+	s = strings.NewReplacer("\r\n", " ", "\n", " ", "\r", " ").Replace(s)
+	return strings.ReplaceAll(s, delimiter, " ")
 }
 
 // Markdown returns the workbook content as Markdown.
